@@ -618,7 +618,14 @@ def r12_unit_scale(ctx):
         if isinstance(n, ast.Return) and isinstance(n.value, ast.Call) and \
                 U(n.value.func) == "Duration":
             kws |= {k.arg for k in n.value.keywords}
-    rep.check(bool(kws) and kws <= {"days", "hours", "minutes", "seconds"},
+    if None in kws:
+        rep.undecided("R12.exact-difference",
+                      ctx.fkey(sub, None, "exact-keywords"), sub.loc(),
+                      "the difference is built with Duration(**<computed "
+                      "mapping>): its keywords are not read by this rule",
+                      ("C04",))
+    else:
+      rep.check(bool(kws) and kws <= {"days", "hours", "minutes", "seconds"},
               "R12.exact-difference", ctx.fkey(sub, None, "exact-keywords"),
               sub.loc(), "the difference of two time points is built from "
               "days, hours, minutes and seconds only",
@@ -643,7 +650,7 @@ def r12_unit_scale(ctx):
         incs = [U(s.target) for s in n.body if isinstance(
             s, ast.AugAssign) and isinstance(s.op, ast.Add)]
         for lo, hi in chain:
-            if incs == [lo] or decs == [hi]:
+            if lo in incs or hi in decs:
                 found += 1
                 t = n.test
                 on_running = (isinstance(t, ast.Compare) and len(t.ops) == 1
@@ -679,7 +686,13 @@ def r12_unit_scale(ctx):
                               kwname(kwvar, lo), U(t), decs, incs, lo),
                           ("C04",))
                 break
-    if found != 3:
+    if found == 0:
+        rep.undecided("R12.borrow-chain", ctx.fkey(sub, None, "borrow"),
+                      sub.loc(), "TimePoint.__sub__ does not borrow between "
+                      "named per-unit differences (the idiom this rule "
+                      "reads): the borrow chain is not decided here",
+                      ("C04",))
+    elif found != 3:
         rep.error("R12", "TimePoint.__sub__: borrow chain not recognised")
     ctx.cache.setdefault("extra:C01", {})["unit_obligations"] = len(seen)
 
